@@ -38,8 +38,8 @@ func init() {
 func walletMethods(c *Ctx) []*ir.Func { return c.P.MethodsOf("wallet", "SingleAddressWallet") }
 
 func c07r1(c *Ctx) {
-	mu := c.P.Field("wallet", "SingleAddressWallet", "mu")
-	locked := c.P.Field("wallet", "SingleAddressWallet", "locked")
+	mu := walletMuField(c.P)
+	locked := walletLockedField(c.P)
 	methods := walletMethods(c)
 	ls := NewLockset(c.P, mu, methods)
 	for _, m := range methods {
@@ -65,7 +65,7 @@ func c07r1(c *Ctx) {
 
 // reservers returns the methods that store into the reservation map (directly).
 func reservers(c *Ctx) []*types.Func {
-	locked := c.P.Field("wallet", "SingleAddressWallet", "locked")
+	locked := walletLockedField(c.P)
 	var out []*types.Func
 	for _, m := range walletMethods(c) {
 		for _, n := range m.Graph().Nodes {
@@ -489,8 +489,8 @@ func usesMembershipTest(f *ir.Func, loop ast.Stmt) bool {
 }
 
 func c07r5(c *Ctx) {
-	mu := c.P.Field("wallet", "SingleAddressWallet", "mu")
-	locked := c.P.Field("wallet", "SingleAddressWallet", "locked")
+	mu := walletMuField(c.P)
+	locked := walletLockedField(c.P)
 	unspent := c.P.Method("wallet", "SingleAddressStore", "UnspentSiacoinElements")
 	maturity := c.P.Field("types", "SiacoinElement", "MaturityHeight")
 	methods := walletMethods(c)
@@ -610,8 +610,8 @@ func c07r5(c *Ctx) {
 }
 
 func c07r6(c *Ctx) {
-	mu := c.P.Field("wallet", "SingleAddressWallet", "mu")
-	locked := c.P.Field("wallet", "SingleAddressWallet", "locked")
+	mu := walletMuField(c.P)
+	locked := walletLockedField(c.P)
 	methods := walletMethods(c)
 	ls := NewLockset(c.P, mu, methods)
 	rs := reservers(c)
